@@ -86,8 +86,8 @@ func mkStream(r *rand.Rand, domain uint32, short bool, badAt int, badKind int) s
 				binary.BigEndian.PutUint16(m[2:4], uint16([]int{0, 1, 4, 15}[r.IntN(4)]))
 				add(m, "bad:length<16")
 			case 4: // record truncated inside the message (lengths consistent)
-				if i > 0 {
-					rec := gen.Records(r, pool, 1, 200)
+				rec := gen.Records(r, pool, 1, 2000)
+				if i > 0 && len(rec) == 1 {
 					b, _ := refipfix.EncodeRecord(gen.Widths(pool), rec[0])
 					if len(b) > 1 {
 						// shorter than one record would be padding; make it one record plus a partial one
